@@ -194,6 +194,18 @@ func lzStep(state, input, output interface{}) (bool, interface{}) {
 			objs = append(objs, lzObj{out.UUIDs[i], b[0], b[1]})
 		}
 		return true, lzEncode(objs)
+	case "aidx":
+		// AssignIndex: the field value of every stored object, non-increasing
+		var vals []int
+		for _, o := range objs {
+			if in.Path == "I" {
+				vals = append(vals, o.I)
+			} else {
+				vals = append(vals, o.K)
+			}
+		}
+		sort.Sort(sort.Reverse(sort.IntSlice(vals)))
+		return out.Class == "nil" && out.Set == fmt.Sprint(vals), st
 	case "delall":
 		return out.Class == "nil", ""
 	case "flush", "create":
@@ -224,6 +236,8 @@ func lzDescribe(input, output interface{}) string {
 		return fmt.Sprintf("len(%s %s %d)->%d", in.Path, in.Op, in.V, out.N)
 	case "many":
 		return fmt.Sprintf("many(%v)->n=%d %s", in.Batch, out.N, out.Class)
+	case "aidx":
+		return fmt.Sprintf("assignindex(%s)->%s", in.Path, out.Set)
 	}
 	return in.Kind + "->" + out.Class
 }
@@ -370,6 +384,13 @@ func (c *lzClient) do(db *sod.DB, in lzIn, known func() string) {
 			for _, x := range recs {
 				out.UUIDs = append(out.UUIDs, x.UUID())
 			}
+		case "aidx":
+			var vals []int
+			err := db.AssignIndex(&Rec{}, in.Path, &vals)
+			if vals == nil {
+				vals = []int{}
+			}
+			out.Class, out.Set = errClass(err), fmt.Sprint(vals)
 		case "delall":
 			out.Class = errClass(db.DeleteAll(&Rec{}))
 		case "flush":
@@ -413,7 +434,25 @@ func (c *lzClient) compound(db *sod.DB, written *sync.Map) string {
 		}
 		return ""
 	}
-	switch r.Intn(7) {
+	switch r.Intn(9) {
+	case 7:
+		// Repair of a healthy collection while others write: nothing to repair.
+		// Not in asynchronous mode: entries of pending writes have no file yet,
+		// and integrity operations are only specified "once no write is pending".
+		if c08cfg.Async != 0 {
+			break
+		}
+		if err := db.Repair(&Rec{}); err != nil {
+			return "Repair of a healthy collection failed while other calls were running: " + err.Error()
+		}
+	case 8:
+		var vals []int
+		db.AssignIndex(&Rec{}, pick(r, []string{"K", "I"}), &vals)
+		for i := 1; i < len(vals); i++ {
+			if vals[i-1] < vals[i] {
+				return fmt.Sprintf("AssignIndex not ordered under concurrency: %v", vals)
+			}
+		}
 	case 0:
 		return check(db.Search(&Rec{}, "K", ">=", 0).And("I", "<", 50).Collect())
 	case 1:
@@ -517,8 +556,10 @@ func runC08(k int, rng *Rng) CaseResult {
 					in = lzIn{Kind: "count"}
 				case x < 82:
 					in = lzIn{Kind: "all"}
-				case x < 90:
+				case x < 87:
 					in = lzIn{Kind: "slen", Path: pick(r, []string{"K", "I"}), Op: pick(r, []string{"=", "<", ">=", "!="}), V: r.Intn(5)}
+				case x < 90:
+					in = lzIn{Kind: "aidx", Path: pick(r, []string{"K", "I"})}
 				case x < 94:
 					a := 6 + r.Intn(1000)
 					in = lzIn{Kind: "many", Batch: [][2]int{{a, r.Intn(4)}, {a + 1 + r.Intn(3), r.Intn(4)}}}
